@@ -45,10 +45,14 @@ VALID = c03.VALID + [
     '1 + 2 * 3 - 4', "$.where($.a > 1).select($.b).len()",
 ]
 INVALID = ['1 ? 2', '1 +', ')', "'abc", '1 2', '[1', 'f(', '$ $', '1 + * 2',
-           '?', '__x', 'a b', '{', "1 + '\\xzz'", 'f(1,', ']', '1 =>']
+           '?', '__x', 'a b', '{', "1 + '\\xzz'", 'f(1,', ']', '1 =>',
+           '$.in 5', '$.or 1 2 + 3', 'a.and b c', "'\\777' 1", 'not.x 1 2']
 SHORT = ['1', '[1]', '$', 'a', 'f()', '1 + 2', '$.x', '[1, 2]', 'a.b',
          'not 1', '-1', 'f(1)', "'s'", '$[0]', '1 ?', ')', '1 2', '1 +',
-         '[1', "'abc", '?']
+         '[1', "'abc", '?',
+         # word operators where a name is expected, with a second error
+         # close behind; escapes at the edge of what the codec accepts
+         '$.in 5', '$.or 1 2', "'\\777'", "'\\400' 1"]
 KINDS = ['default', 'legacy', 'custom1']
 
 _REF = {}
@@ -113,6 +117,7 @@ def reference(kind, text):
     """Outcome on an engine used for nothing else."""
     key = (kind, text)
     if key not in _REF:
+        common.reset_process_state()
         if len(_REF) > 50000:
             _REF.clear()
         _REF[key] = trees.parse_outcome(fresh_engine(kind), text)
@@ -179,6 +184,8 @@ def check_sequential(run, case):
 # scheduled concurrency
 
 def _make_fns(eng, texts):
+    common.reset_process_state()
+
     def mk(t):
         def fn():
             lexhook.set_hook(lambda lexer: sched.point())
@@ -347,6 +354,7 @@ def check_line(run, case):
     kind = case['engine']
     ta, tb = (common.dec(t) for t in case['texts'])
     eng = fresh_engine(kind, really=True) if case.get('cold') else sut(kind)
+    common.reset_process_state()
     out = linesched.run_preempted(
         lambda: trees.parse_outcome(eng, ta),
         lambda: trees.parse_outcome(eng, tb), case['at'], _YAQL_DIR)
